@@ -76,6 +76,10 @@ pub enum Op {
     IterDrop(Sel),
     Descriptor(Desc),
     WaitIdle,
+    /// A put whose value length is chosen at execution time so that the live write-ahead log ends
+    /// `r` bytes (1..=6: less than a fragment header) before the end of its current 32 KiB block.
+    /// The next append to that log (by the same or a re-opened writer) has to pad the block first.
+    PutTail(Sel, u8),
 }
 
 #[derive(Clone, Debug, Serialize, Deserialize, PartialEq, Eq, Hash)]
@@ -171,6 +175,37 @@ pub fn make_value(counter: u64, v: Val) -> Vec<u8> {
         }
     }
     out
+}
+
+fn varint_len(n: u64) -> u64 {
+    let mut n = n;
+    let mut l = 1;
+    while n >= 128 {
+        n >>= 7;
+        l += 1;
+    }
+    l
+}
+
+/// Value length for `Op::PutTail`: a single-put batch record (7-byte fragment header, 8-byte
+/// sequence number, operation count, operation byte, length-prefixed key and value) appended to a
+/// log of `wal_size` bytes ends `r` bytes before the block boundary. `None` if the current block
+/// has no room for such a record (the caller then writes an ordinary value).
+pub fn tail_value_len(wal_size: u64, key_len: usize, r: u8) -> Option<u32> {
+    let r = (r as u64).clamp(1, 6);
+    let used = wal_size % 32768;
+    let fixed = 7 + 8 + 1 + 1 + varint_len(key_len as u64) + key_len as u64;
+    let room = 32768u64.checked_sub(used + r + fixed)?;
+    // room = varint_len(vlen) + vlen
+    for vl in 1..=3u64 {
+        if room > vl {
+            let vlen = room - vl;
+            if varint_len(vlen) == vl {
+                return Some(vlen as u32);
+            }
+        }
+    }
+    None
 }
 
 pub fn hash_json<T: Serialize>(t: &T) -> u64 {
